@@ -43,6 +43,24 @@ theorem c15_sizes (N : Nat) (as : List Act) (t : Nat) (q q' : Req) (off len : Na
   refine ⟨h1, h2, ?_, h4, h5, h6⟩
   cases q <;> exact h3
 
+/-- [A] Requests of every size are covered: sizes are natural numbers with no upper bound in the model (the C's
+`size_t` values are those below `2^64`; the model's address arithmetic never wraps, which for the implementation is the
+assumption `allocation + N ≤ 2^64` on the storage the allocator returned).  A request larger than the ring — an exact
+size above `N`, or an up-to request whose minimum is above `N` — is refused in every reachable state of every
+interleaving, whatever its size (`SIZE_MAX`, `SIZE_MAX − k`, `2^63`, …): nothing is handed out, so by
+`c15_refusal_leaves_dest` ring and `*dest` stay as they were. -/
+theorem c15_oversize_refused (N : Nat) (as : List Act) (t : Nat) (q : Req)
+    (hp : (run (Sys.init N) as).pending = some (t, q))
+    (hbig : match q with
+      | .exact k => N < k
+      | .upTo m k => N < m ∧ m ≤ k) (q' : Req) (off len : Nat) :
+    (step (run (Sys.init N) as) .complete).last ≠ some (q', .ok off len) := by
+  intro hl
+  obtain ⟨_, _, h3, _, h5, _⟩ := c15_sizes N as t q q' off len hp hl
+  cases q with
+  | exact k => simp only at h3 hbig; omega
+  | upTo m k => simp only at h3 hbig; have := h3.2 hbig.2; omega
+
 /-- [A] The last reported result in any reachable state (however many releases later): a success
 obeys the size rule and names a non-empty range inside the ring. -/
 theorem c15_sizes_last (N : Nat) (as : List Act) (q : Req) (off len : Nat)
